@@ -244,6 +244,10 @@ class Evaluator:
             if isinstance(base, Obj) and isinstance(e.ctx, ast.Load):
                 return BoundRef(base, e.attr)
             raise Unsupported(e, "unbound attribute")
+        if isinstance(e, ast.Lambda) and not (e.args.vararg or e.args.kwarg):
+            fake = ast.FunctionDef(name="<lambda>", args=e.args, body=[ast.copy_location(ast.Return(value=e.body), e)], decorator_list=[], returns=None)
+            ast.copy_location(fake, e)
+            return LocalFunc(fake, self)
         if isinstance(e, ast.Dict) and all(k is not None for k in e.keys):
             try:
                 return {self.ev(k): self.ev(v) for k, v in zip(e.keys, e.values)}
@@ -267,6 +271,14 @@ class Evaluator:
                     raise ModelRaise(Outcome("raise", "ZeroDivisionError", e))
                 except (TypeError, ValueError):
                     raise Unsupported(e)
+            if isinstance(fv, LocalFunc):
+                self.env["__fn__"] = fv
+                fake = ast.copy_location(ast.Call(func=ast.Name(id="__fn__", ctx=ast.Load()), args=e.args, keywords=e.keywords), e)
+                ast.fix_missing_locations(fake)
+                try:
+                    return self.ev(fake)
+                finally:
+                    self.env.pop("__fn__", None)
             if isinstance(fv, BoundRef):
                 self.env["__recv__"] = fv.obj
                 fake = ast.copy_location(ast.Call(func=ast.Attribute(value=ast.Name(id="__recv__", ctx=ast.Load()), attr=fv.attr, ctx=ast.Load()), args=e.args, keywords=e.keywords), e)
@@ -355,7 +367,16 @@ class Evaluator:
                 return -(-a // b)
             raise Unsupported(e)
         if isinstance(e, (ast.Tuple, ast.List, ast.Set)):
-            return tuple(self.ev(x) for x in e.elts)
+            out_t = []
+            for x in e.elts:
+                if isinstance(x, ast.Starred):
+                    v = self.ev(x.value)
+                    if not isinstance(v, (tuple, range, bytes)):
+                        raise Unsupported(e)
+                    out_t += list(v)
+                else:
+                    out_t.append(self.ev(x))
+            return tuple(out_t)
         if isinstance(e, ast.UnaryOp):
             v = self.ev(e.operand)
             if isinstance(e.op, ast.Not):
